@@ -180,28 +180,6 @@ theorem uniform_branch (xb xe : K) (n : Nat) (hn : n ≠ 0) :
   · intro k
     simp only [node, gsum, one_pow]; ring
 
-/-- the statement of the property for a sequence of nodes -/
-def OrderedGraded (xb xe : K) (n : Nat) (x : Nat → K) : Prop :=
-  x 0 = xb ∧ x n = xe ∧
-  (xb < xe → ∀ k, k < n → x k < x (k + 1)) ∧
-  (xe < xb → ∀ k, k < n → x (k + 1) < x k) ∧
-  ∃ ρ, 0 < ρ ∧ ∀ k, k + 2 ≤ n → x (k + 2) - x (k + 1) = ρ * (x (k + 1) - x k)
-
-private theorem graded_of_steps (xb xe f ρ : K) (n : Nat) (x : Nat → K) (hρ : 0 < ρ)
-    (h0 : x 0 = xb) (hn : x n = xe) (hstep : ∀ k, x (k + 1) - x k = f * ρ ^ k)
-    (hf : (0 < xe - xb → 0 < f) ∧ (xe - xb < 0 → f < 0)) : OrderedGraded xb xe n x := by
-  refine ⟨h0, hn, ?_, ?_, ρ, hρ, ?_⟩
-  · intro h k _
-    have := hstep k
-    have hp := mul_pos (hf.1 (by linarith)) (pow_pos hρ k)
-    linarith
-  · intro h k _
-    have := hstep k
-    have hp := mul_neg_of_neg_of_pos (hf.2 (by linarith)) (pow_pos hρ k)
-    linarith
-  · intro k _
-    rw [hstep (k + 1), hstep k]; ring
-
 /-! ## the property -/
 
 /-- FULL PROPERTY, repaired code: for every interval, densities and `n ≥ 1` accepted by the
